@@ -495,5 +495,5 @@ func TestC07(t *testing.T) {
 		"{return-from each visible block, return, go to each visible tag, (error ..), (car 1), (/ 1 0), unbound variable}; oracle: reference evaluator (primary value, whole ordered trace, class of an escaping " +
 		"condition as slip itself reports it for the bare form), every mutex free and every with-open-file stream closed afterwards. Non-trivial: has an exit and (an unwind-protect or with-mutex-lock or >= 5 form kinds). Distinct by program text.")
 	h.Assume("internal/refeval models block/return-from/tagbody/go/unwind-protect/ignore-errors/recover from the language definition and slip's documentation of recover")
-	h.RunProp(t, exits, h.N(8000, 250000))
+	h.RunProp(t, exits, h.N(20000, 250000))
 }
